@@ -42,3 +42,19 @@ package managers
 //@   props C18
 //@   structural-only builds a protobuf message value with array-typed internals
 //@   always-sends
+
+// SyncAll: whatever the exchange with the server does — also when it fails — the manager's semaphore is given back
+// (a semaphore kept after a failed sync blocks every later Sync for ever: C08 "retrying the same sync later succeeds").
+//@ func (*DatatypeManager).SyncAll
+//@   mode math
+//@   props C08 C16
+//@   requires its.sema != nil && its.ctx != nil && its.ctx.OrdaContext != nil && its.syncManager != nil && (forall k string :: k in its.dataMap ==> its.dataMap[k] != nil)
+//@   loop 0 invariant its.sema.$held == old(its.sema.$held) + 1 && its.sema == old(its.sema)
+//@   ensures[the-semaphore-is-given-back-on-every-path] its.sema.$held == old(its.sema.$held)
+//@   modifies *
+
+//@ func (*DatatypeManager).syncPushPullPacks
+//@   trusted one gRPC push-pull exchange and the application of its reply to the datatypes (arbitrary effect on the replicas)
+//@   mode math
+//@   ensures its.sema == old(its.sema)
+//@   modifies *
